@@ -91,5 +91,5 @@ class Backend(BaseBackend):
         self.output(u'</dl></body></html>\n')
 
     def write_entry(self, key, label, text):
-        self.output(u'<dt>%s</dt>\n' % label)
+        self.output(u'<dt>%s</dt>\n' % self.format_str(label))
         self.output(u'<dd>%s</dd>\n' % text)
